@@ -45,11 +45,11 @@ ASSUMPTIONS = ["the property is judged against the target's own logd (Posterior.
                "(1, 10, 100) but differ elsewhere are not generated (probing is the documented validation mechanism)"]
 REQUIRED_COUNTERS = {
     "quick": {"conj_steps_judged": 1600, "shape_compared": 1600, "rate_compared": 1600, "np_gamma_crosschecked": 1600,
-              "ref_update_compared": 1000, "scripted_gamma_scaling_checked": 600, "rejections_observed": 90,
+              "ref_update_compared": 1000, "scripted_gamma_scaling_checked": 600, "rejections_observed": 130,
               "accepted_draws_judged": 40, "direct_draws_compared": 180, "direct_replay_compared": 160,
               "gibbs_conj_steps_judged": 240, "ks_tests": 6},
     "thorough": {"conj_steps_judged": 10000, "shape_compared": 10000, "rate_compared": 10000, "np_gamma_crosschecked": 10000,
-                 "ref_update_compared": 6000, "scripted_gamma_scaling_checked": 4000, "rejections_observed": 270,
+                 "ref_update_compared": 6000, "scripted_gamma_scaling_checked": 4000, "rejections_observed": 400,
                  "accepted_draws_judged": 130, "direct_draws_compared": 1200, "direct_replay_compared": 1100,
                  "gibbs_conj_steps_judged": 1600, "ks_tests": 30},
 }
@@ -76,7 +76,9 @@ REJECT_STRUCTS = [
     "gamma_vector_params", "gamma_dim2_scalar_params", "prior_lognormal", "prior_inversegamma", "prior_uniform",
     "prior_gaussian", "prior_beta", "lik_laplace", "lik_lmrf", "lik_cauchy", "lik_lognormal",
     "not_posterior_gamma", "not_posterior_gaussian", "not_posterior_joint",
-]
+] + [f"occ2_{carrier}_{fam}"      # second occurrence (in the mean) carried by a callable that is not a plain function
+     for carrier in ("partial", "jointpartial", "model", "linearmodel", "instance", "bound")
+     for fam in ("cov", "prec", "gmrf")]
 
 DIRECT_FAMILIES = [
     "Gaussian_scalarcov", "Gaussian_veccov", "Gaussian_fullcov", "Gaussian_prec", "Gaussian_sqrtprec", "Gaussian_sqrtcov",
@@ -136,7 +138,7 @@ def cases(tier, seed):
     # ---- reject
     for rep in range(2 if tier == "quick" else 6):
         for st in REJECT_STRUCTS:
-            out.append({"kind": "reject", "structure": st, "m": rnd.choice([1, 3, 6]) if not st.startswith(("gmrf", "lik_lmrf")) else rnd.choice([4, 6]),
+            out.append({"kind": "reject", "structure": st, "m": rnd.choice([1, 3, 6]) if not (st.startswith(("gmrf", "lik_lmrf")) or st.endswith("_gmrf")) else rnd.choice([4, 6]),
                         "alpha": rnd.choice(ALPHAS), "beta": rnd.choice(BETAS), "rep": rep})
     # ---- gibbs
     ng = 2 if tier == "quick" else 8
@@ -612,6 +614,8 @@ def _build_reject(case, rs):
     elif st == "lik_lmrf": lik = lambda: D.LMRF(np.zeros(m), lambda s: 1 / s, geometry=m, name="y")
     elif st == "lik_cauchy": lik = lambda: D.Cauchy(np.zeros(m), lambda s: 1 / s, name="y")
     elif st == "lik_lognormal": lik = lambda: D.Lognormal(np.zeros(m), lambda s: 1 / s, name="y")
+    elif st.startswith("occ2_"):
+        return _build_occ2(case, rs, data, gam)
     elif st == "not_posterior_gamma":
         return lambda: gam()
     elif st == "not_posterior_gaussian":
@@ -625,9 +629,94 @@ def _build_reject(case, rs):
     return lambda: D.Posterior(lik().to_likelihood(data), prior())
 
 
+class _Scaler:
+    """Callable object / bound-method carrier of a hyper-parameter dependence s -> s*v."""
+    def __init__(self, v):
+        self.v = v
+    def __call__(self, s):
+        return s * self.v
+    def scaled(self, s):
+        return s * self.v
+
+
+def _build_occ2(case, rs, data, gam):
+    """Gaussian/GMRF whose cov/prec has the supported form *and* whose mean depends on the same hyper-parameter
+    through a callable that is not a plain function (partial left by conditioning a joint, Model, LinearModel,
+    callable instance, bound method).  builder.gibbs builds the joint for the HybridGibbs route (or is None)."""
+    import cuqi, functools
+    D = cuqi.distribution
+    _, carrier, fam = case["structure"].split("_")
+    m = case["m"]
+    xval = rs.standard_normal(m) + 0.5
+    def lik(mean):
+        if fam == "gmrf":
+            return D.GMRF(mean, lambda s: s, geometry=m, name="y")
+        return D.Gaussian(mean, **{fam: (lambda s: 1 / s) if fam == "cov" else (lambda s: s)}, geometry=m, name="y")
+    def joint():
+        x = D.Gaussian(np.zeros(m), 1.0, name="x")
+        return D.JointDistribution(x, lik(lambda x, s: s * x), gam())
+    if carrier == "jointpartial":
+        builder = lambda: joint()(x=xval, y=data)
+        builder.gibbs = lambda: joint()(y=data)
+        return builder
+    mean = {"partial": lambda: functools.partial(lambda x, s: s * x, xval),
+            "model": lambda: cuqi.model.Model(lambda s: s * xval, range_geometry=m, domain_geometry=1),
+            "linearmodel": lambda: cuqi.model.LinearModel(lambda s: s * xval, lambda y: np.array([float(xval @ y)]), range_geometry=m, domain_geometry=1),
+            "instance": lambda: _Scaler(xval),
+            "bound": lambda: _Scaler(xval).scaled}[carrier]
+    builder = lambda: D.Posterior(lik(mean()).to_likelihood(data), gam())
+    builder.gibbs = None
+    return builder
+
+
+def _reject_gibbs_route(case, ctx, make_joint):
+    """HybridGibbs hands the unsupported conditional to Conjugate itself (MH on x, Conjugate on s)."""
+    import cuqi
+    E = cuqi.experimental.mcmc
+    st = case["structure"]
+    cfg = {"kind": "reject", "interface": "experimental", "structure": st, "route": "hybridgibbs"}
+    kind, T = core.outcome(make_joint, refusal=core.REFUSAL_TYPES_BROAD)
+    if kind != "value":
+        ctx.refused("build_gibbs:" + st, T); ctx.count("rejections_observed")
+        return
+    with Monitor() as mon:
+        def go():
+            g = E.HybridGibbs(T, {"x": E.MH(), "s": E.Conjugate()})
+            g.sample(3)
+            return g.get_samples()
+        kind, val = core.outcome(go, refusal=core.REFUSAL_TYPES_BROAD)
+        recs = [r for r in mon.take() if r["role"] == "conj"]
+    if kind == "refused":
+        ctx.refused("experimental:hybridgibbs", val)
+        ctx.count("rejections_observed")
+        ctx.nontrivial("experimental:hybridgibbs:refused")
+        return
+    if kind == "crashed":
+        ctx.violation("crash", dict(cfg, exc=type(val).__name__), detail=f"{type(val).__name__}: {core.short(str(val), 300)}")
+        return
+    ctx.count("unsupported_accepted")
+    for r in recs:
+        if not (r["done"] and len(r["gammas"]) == 1 and r["gammas"][0]["shape"].size == 1):
+            ctx.violation("unsupported_sampled", cfg, detail=f"structure {st} accepted inside HybridGibbs without a capturable Gamma draw")
+            continue
+        sh, ra = float(r["gammas"][0]["shape"][0]), float(r["gammas"][0]["rate"][0])
+        fit, status = _read_target(r["target"])
+        ctx.count("accepted_draws_judged")
+        exact = fit is not None and fit["resid"] <= TOL_RESID * fit["scale"] and abs(sh - fit["shape"]) <= TOL_PARAM * max(1.0, abs(fit["shape"])) \
+            and abs(ra - fit["rate"]) <= TOL_PARAM * abs(fit["rate"])
+        if exact:
+            ctx.count("accepted_and_exact")
+        else:
+            why = status if fit is None else f"target logd reads shape={fit['shape']:.8g}, rate={fit['rate']:.8g}, non-Gamma residual {fit['resid']:.2e} of scale {fit['scale']:.3g}"
+            ctx.violation("unsupported_sampled", cfg, detail=f"structure {st} (m={case['m']}) was not rejected inside HybridGibbs; drawn from Gamma({sh}, {ra}); {why}")
+    ctx.nontrivial("experimental:hybridgibbs:accepted")
+
+
 def _run_reject(case, ctx, rs):
     import cuqi
     builder = _build_reject(case, rs)
+    if getattr(builder, "gibbs", None) is not None:
+        _reject_gibbs_route(case, ctx, builder.gibbs)
     st = case["structure"]
     kind, target = core.outcome(builder)
     if kind != "value":
